@@ -254,6 +254,40 @@ func checkSign(c signCase) (h.Info, error) {
 			return info, fmt.Errorf("GenerateKey(reader kind #%d) left %d bytes in the stream, crypto/ed25519 leaves %d", ri, s2.Len(), s1.Len())
 		}
 	}
+	// one reader object asked for several keys: a stream that repeats the same 32 bytes (a deterministic
+	// key derivation source, a test fixture) gives the same key every time, a stream of different blocks the
+	// keys of the successive blocks; crypto/ed25519 with an identical reader is the reference
+	for ri, blocks := range [][]byte{
+		bytes.Repeat(seed, 3),
+		append(append(append([]byte{}, seed...), bytes.Repeat([]byte{0xff}, 32)...), seed...),
+		append(bytes.Repeat([]byte{0xff}, 32), seed...),
+		append(make([]byte, 32), seed...),
+	} {
+		s1, s2 := bytes.NewReader(blocks), bytes.NewReader(blocks)
+		for call := 0; call < len(blocks)/32; call++ {
+			wpub, wpriv, werr := stded.GenerateKey(s1)
+			gpub3, gpriv3, gerr := ed25519.GenerateKey(s2)
+			if werr != nil {
+				return info, fmt.Errorf("PRECONDITION: crypto/ed25519.GenerateKey failed on a plentiful reader: %v", werr)
+			}
+			if gerr != nil || !bytes.Equal(gpriv3, wpriv) || !bytes.Equal(gpub3, wpub) || s1.Len() != s2.Len() {
+				return info, fmt.Errorf("GenerateKey call %d on one reader object delivering the blocks %x (stream kind %d) = %x, %x, %v (%d bytes left); crypto/ed25519 with an identical reader: %x, %x (%d bytes left)", call, blocks, ri, gpub3, gpriv3, gerr, s2.Len(), wpub, wpriv, s1.Len())
+			}
+			// the returned keys are the caller's: overwriting the public key must not reach the private key
+			for i := range gpub3 {
+				gpub3[i] ^= 0xa5
+			}
+			if !bytes.Equal(gpriv3, wpriv) {
+				return info, fmt.Errorf("overwriting the public key returned by GenerateKey changed the private key returned next to it: %x, crypto/ed25519 %x", gpriv3, wpriv)
+			}
+			if len(msg) > 4096 {
+				continue
+			}
+			if sg := ed25519.Sign(gpriv3, msg); !bytes.Equal(sg, stded.Sign(wpriv, msg)) {
+				return info, fmt.Errorf("Sign with the private key from GenerateKey after the returned public key slice was overwritten by the caller = %x, crypto/ed25519 %x", sg, stded.Sign(wpriv, msg))
+			}
+		}
+	}
 	if _, _, err := ed25519.GenerateKey(&shortReader{data: seed[:31]}); err == nil {
 		return info, fmt.Errorf("GenerateKey with a 31-byte reader must fail")
 	}
